@@ -157,6 +157,17 @@ def check(cfg, out, stats):
         return check_eventmap(cfg, out, stats)
     h = maker(cfg)()
     out.extra = {"concrete_index_checks": 1}
+    widths = [(len(s_.i), len(s_.trg)) for s_ in h.srcs] + [(len(h.mon.src.i), len(h.mon.src.trg))]
+    n_ = len(cfg["trg"])
+    if any(w_ != (1, 1) for w_ in widths) or (len(h.mon.enable), len(h.mon.pending), len(h.mon.clear)) != (n_, n_, n_):
+        from .. import bmc as _b
+        _b.mark_violation("member-widths")
+        out.violations.append({"key": f"member-widths@{n_}",
+                               "what": f"C13 an event line / trigger is not one bit wide, or a mask is not one bit per event "
+                                       f"(lines {sorted(set(widths))}, masks {len(h.mon.enable)}/{len(h.mon.pending)}/"
+                                       f"{len(h.mon.clear)} for {n_} events)",
+                               "query": "member-widths", "cfg": cfg, "stimulus": [], "prefix": 0, "k": 0, "detail": {}})
+        return
     if not _index_oracle(h, cfg):
         out.violations.append({"key": f"eventmap-index@{cfg['order']}",
                                "what": f"C13 EventMap numbering is not dense/stable/first-addition for add order {cfg['order']}",
@@ -167,6 +178,11 @@ def check(cfg, out, stats):
 
 
 def replay(v):
+    if v["query"] == "member-widths":
+        h = maker(v["cfg"])()
+        n_ = len(v["cfg"]["trg"])
+        return any((len(s_.i), len(s_.trg)) != (1, 1) for s_ in h.srcs + [h.mon.src]) or \
+            (len(h.mon.enable), len(h.mon.pending), len(h.mon.clear)) != (n_, n_, n_)
     if v["query"] == "eventmap-index-concrete":
         return not _index_oracle(maker(v["cfg"])(), v["cfg"])
     if v["cfg"].get("kind") == "eventmap":
